@@ -47,6 +47,13 @@ CLAIMED["C12"] = ("Proof (deductive): both extractors terminate on every input (
   "Trusted: govc, go/ssa, SMT solvers (incl. z3's sat.euf core), the spec transcriptions; peer assumption stated in the spec: IEs preceding id 139 in the transfer have one-octet length determinants (< 128 octets).",
   "DESIGN.md §4 C12")
 
+CLAIMED["C17"] = ("Proof (deductive, all valid inputs) for the conversions this copy of the library contains: PlmnIDToNas (2- and 3-digit MNC), AmfIdToNas (region 8 | set 10 | pointer 6), SnssaiToNas (SST / SST+SD), "
+  "IPAddressToNgap and IPAddressToString (32/128/160-bit transport layer address, IPv4 first) and the DNN length-value helper, each against spec functions written from TS 23.003 / 24.501 / 38.414; "
+  "round-trip lemmas for IP addresses (IPv4, IPv6, dual stack) and DNN.",
+  "Trusted: govc, go/ssa, SMT solvers; assumed library contracts: hex.DecodeString, strconv.Atoi, net.ParseIP/To4/To16/IPv4/String with ParseIP(String(a)) = a. "
+  "NOT covered: ProtocolConfigurationOptions Marshal/UnMarshal (state machine over bytes.Buffer and binary.Read/Write, outside the executor's subset so far); this copy has no inverse functions for PLMN, S-NSSAI and AMF-ID, so 'undone by its inverse' is decided for IP addresses and DNN only.",
+  "DESIGN.md §4 C17")
+
 PENDING = {
 }
 
